@@ -4,6 +4,7 @@ import (
 	"bytes"
 	"encoding/hex"
 	"fmt"
+	"os"
 
 	"verif/harness/refwmpt"
 	"verif/harness/sim"
@@ -252,6 +253,13 @@ func gen0(prop string, r *sim.Rand, tier string) sim.Script {
 	bulk := r.Chance(1, 120) // one commit that touches hundreds of keys (batch / buffer thresholds)
 	if bulk {
 		nKeys = 150 + r.Intn(300)
+	}
+	if prop == "C13" && (r.Chance(1, 8000) || os.Getenv("VERIF_FORCE_PROFILE") == "giant") {
+		// ... or tens of thousands: a commit that stores more than 2^16 nodes, rolled back
+		bulk = true
+		nKeys = 28000 + r.Intn(6000)
+		s.Huge = true // unique values: no stored node is shared, the per-update sharing bookkeeping is skipped
+		s.Store = "simkv"
 	}
 	s.Keys = keyPool(r, nKeys)
 	if bulk && r.Chance(1, 3) {
